@@ -220,6 +220,12 @@ impl Report {
     }
     /// Require that a counter is non-zero, else the leg is inconclusive.
     pub fn require(&mut self, k: &str, min: u64) {
+        // legs run with a scaled-down workload (VF_SCALE percent, e.g. under ThreadSanitizer)
+        // scale their evidence requirements with it; at least one event is always required
+        let min = match std::env::var("VF_SCALE").ok().and_then(|s| s.parse::<u64>().ok()) {
+            Some(p) if p < 100 => (min * p / 100).max(1),
+            _ => min,
+        };
         if self.get(k) < min {
             self.inconclusive(format!("counter {} = {} < required {}", k, self.get(k), min));
         }
